@@ -367,6 +367,7 @@ fn run_e1(args: &Args, prop: &str, run_seed: u64, known: &HashSet<String>, dir: 
             "violation": v2.to_json(),
             "original_violation": v.to_json(),
             "trace": min.to_json(),
+            "original_trace": trace.to_json(),
             "original_steps": trace.steps.len(),
             "shrink_runs": used,
             "seed": run_seed.to_string(),
@@ -529,6 +530,7 @@ fn run_e2(args: &Args, prop: &str, run_seed: u64, known: &HashSet<String>, local
             "violation": v2.to_json(),
             "original_violation": v.to_json(),
             "trace": min.to_json(),
+            "original_trace": trace.to_json(),
             "original_steps": trace.steps.len(),
             "shrink_runs": used,
             "seed": run_seed.to_string(),
@@ -569,6 +571,7 @@ fn run_e3(args: &Args, run_seed: u64, local: &mut Agg, want_logs: bool) {
             "violation": v2.to_json(),
             "original_violation": v.to_json(),
             "trace": min.to_json(),
+            "original_trace": trace.to_json(),
             "original_steps": trace.steps.len(),
             "shrink_runs": used,
             "seed": run_seed.to_string(),
